@@ -251,3 +251,27 @@ Example C01_witness_pipeline :
   valid_file f = true /\ inst cfg_all f = [Compose.PL.IBlock [0; 1; 2; 3]%Z; Compose.PL.IBlock [4; 5; 6; 7]%Z]
   /\ map (lab cfg_all f) [0; 1; 2; 3; 4; 5; 6; 7]%Z = elements_file f.
 Proof. vm_compute. repeat split; reflexivity. Qed.
+
+(* 11. TIE BY TRANSLATION, loop bodies.  Beyond the dispatch (section 9) the translator re-reads, on
+      every run, (a) the found-flag rules of scanDenseNodes / scanWays / scanRelations — which
+      `if !foundX` sets which iterators to nil, which ones return an error (mandatory columns), which
+      conjunction of flags enables scanTags / extractMembers —, flags and iterators named by the
+      dispatch arm that sets / fills them; (b) for every packed column whether its elements are DELTA
+      accumulated (x += v, prev = v + prev) and in which integer type (int64 / int32) or used as they
+      are; (c) the value formulas of timestamps and coordinates (locals replaced by the generated
+      getter that defines them).  The model's nil_info / dense_fixup / extract_pre / fill are equal to
+      rule- and table-driven versions, and the rules, accumulation kinds and formulas equal the source's.
+      Still tied by correspondence only: the filter / reset-on-reject code, the keys_vals inner loop
+      shape, slice allocation, the two-pass structure of scanPrimitiveBlock. *)
+Theorem C01_decoder_loop_structure_matches_source :
+  (forall fi ic, nil_info fi ic = nil_info_t fi ic) /\ (forall s, dense_fixup s = dense_fixup_t s)
+  /\ (forall p v x, extract_pre p v x = extract_pre_t p v x)
+  /\ (forall f l prev index nodes, fill f l prev index nodes = fill_t ASint64 (kind_of 8 way_accum) f l prev index nodes)
+  /\ dense_rules = GenPbfCode.found_scanDenseNodes /\ way_rules = GenPbfCode.found_scanWays
+  /\ rel_rules = GenPbfCode.found_scanRelations
+  /\ accum_view dense_accum = GenPbfCode.accum_scanDenseNodes
+  /\ accum_view dinfo_accum = GenPbfCode.accum_scanDenseNodes_info
+  /\ accum_view way_accum = GenPbfCode.accum_scanWays /\ accum_view rel_accum = GenPbfCode.accum_scanRelations
+  /\ expected_formulas = GenPbfCode.formulas.
+Proof. exact decoder_loop_structure_matches_source. Qed.
+Print Assumptions C01_decoder_loop_structure_matches_source.
